@@ -149,6 +149,8 @@ def record(rng, n, tail=None):
 def run(ctx):
     ctx.tlc("MC_Generate", "MC_Generate_witness.cfg", expect_violation=True, workers=16, heap="8g")
     ctx.tlc("MC_Generate", "MC_Generate_order1.cfg", workers=4)
+    ctx.tlc("MC_Generate", "MC_Generate_live.cfg", workers=8, timeout=900)      # <>(done or error) under WF(Next), every order-2 mask
+
     r = ctx.tlc("MC_Generate", "MC_Generate_%s.cfg" % ctx.tier, workers=16, timeout=3400, heap="14g")
     recs = r.records
     if len(recs) != 262144:
